@@ -193,6 +193,10 @@ func c18Check(c *Ctx, p *Prog, m *Model) {
 						return true
 					}
 				}
+				// a parameterless predicate of the package that is exactly this flag test (flags&L != 0, or the call above)
+				if cal := calleeOf(call); cal != nil && (g.Succ == 0) != neg && flagPredicate(p, cal, flagPriv) {
+					return true
+				}
 			}
 		}
 		return false
@@ -672,4 +676,36 @@ func dependsDirect(v, target ssa.Value) bool {
 func firstRewriteOfParam(call *ssa.Call, subj ssa.Value) bool {
 	_, isPrm := strip(subj).(*ssa.Parameter)
 	return isPrm
+}
+
+// flagPredicate: fn() bool returns, on its single path, "the flag bit L of the package flags word is set":
+// IsAnyBitsSet(L) / IsAllBitsSet(L), or flags&L != 0 (also == L for a single bit).
+func flagPredicate(p *Prog, fn *ssa.Function, L int64) bool {
+	if fn == nil || fn.Pkg != p.Slog || len(fn.Params) != 0 || len(fn.Blocks) != 1 {
+		return false
+	}
+	ret, ok := fn.Blocks[0].Instrs[len(fn.Blocks[0].Instrs)-1].(*ssa.Return)
+	if !ok || len(ret.Results) != 1 {
+		return false
+	}
+	switch x := ret.Results[0].(type) {
+	case *ssa.Call:
+		if cal := calleeOf(x); cal != nil && (nm(cal) == "IsAnyBitsSet" || nm(cal) == "IsAllBitsSet") && len(x.Common().Args) == 1 {
+			v, ok := constInt(x.Common().Args[0])
+			return ok && v == L
+		}
+	case *ssa.BinOp:
+		and, ok := x.X.(*ssa.BinOp)
+		if !ok || and.Op != token.AND {
+			return false
+		}
+		g, isG := globalLoad(and.X)
+		m, isC := constInt(and.Y)
+		if !isG || !isC || nm(g) != "flags" || m != L {
+			return false
+		}
+		k, isK := constInt(x.Y)
+		return isK && ((x.Op == token.NEQ && k == 0) || (x.Op == token.EQL && k == L))
+	}
+	return false
 }
